@@ -119,14 +119,25 @@ def instances(tier, seed):
         for gset in ([(U(0), t), (U(1), [[Fr(1 + k) for k in range(N + 1)]])], [(U(1), t * 2 + 1), (U(0), [[Fr(5 + k) for k in range(N)]])]):
             for when in ('before', 'after'):
                 add(spec=fam.with_horizon(s2, H[1]), guesses=gset, when=when, cfg=Cfg(method, N=N, M=[1, 2][method == 'MS'], intg=intg or 'rk', grid=fam.G_UNI, degree=2, scheme='radau'))
+    # MATRIX-valued variables: a global 2x2 variable (also with N = 1, where its shape looks like a per-interval array) and a per-interval
+    # 2x2 variable whose array guess holds one 2x2 block per interval
+    for method, intg in (('MS', 'rk'), ('DC', None)):
+        for N in (1, 2):
+            sm_ = base_model(False)
+            sm_.vars = list(sm_.vars) + [Sym('Wm', rows=2, cols=2), Sym('Vm', 'control', rows=2, cols=2)]
+            sm_.objective = list(sm_.objective) + [Vg('Wm', 1) * Vg('Wm', 1) + Vg('Wm', 2), sum_(Vg('Vm', 0) * Vg('Vm', 3) + Vg('Vm', 1))]
+            gset = [(E('vg', 'Wm'), [[Fr(1), Fr(2)], [Fr(3), Fr(4)]]), (E('vg', 'Vm'), [[Fr(10 * r_ + k) for k in range(2 * N)] for r_ in range(1, 3)])]
+            for when in ('before', 'after'):
+                add(spec=fam.with_horizon(sm_, H[1]), guesses=gset, when=when, cfg=Cfg(method, N=N, M=1, intg=intg or 'rk', grid=fam.G_UNI, degree=2, scheme='radau'))
     # vector-valued state: scalar guess (repeated), n x N and n x (N+1) arrays
     for method, intg in (('MS', 'rk'), ('DC', None), ('SS', 'rk')):
-        for N, M in ((2, 2), (3, 1)):
+        for N, M in ((2, 2), (3, 1), (1, 1)):
             base = copy.deepcopy(fam.ode_core()[2])
             base.objective = [at_tf(X(0) * X(0)) + integral(U(0) * U(0))]
             XG = E('xg', 0)
             for gset in ([(XG, Fr(7, 2))], [(XG, [[Fr(10 + k) for k in range(N + 1)], [Fr(20 + k) for k in range(N + 1)]])],
-                         [(XG, [[Fr(30 + k) for k in range(N)], [Fr(40 + k) for k in range(N)]]), (X(2), 5)]):
+                         [(XG, [[Fr(30 + k) for k in range(N)], [Fr(40 + k) for k in range(N)]]), (X(2), 5)],
+                         [(XG, t * 2 + 1)]):          # a SCALAR expression of time for the vector-valued state: every component follows it
                 for when in ('before', 'after'):
                     add(spec=fam.with_horizon(base, H[(N + M) % len(H)]), guesses=gset, when=when,
                         cfg=Cfg(method, N=N, M=M, intg=intg or 'rk', grid=grids[N % len(grids)], degree=2, scheme='radau'))
@@ -262,6 +273,9 @@ def run(item):
                         final[repr(X(off + j_))] = (X(off + j_), val if isinstance(val, (int, Fr, E)) else [val[j_]])
                 off += r_ * c_
             continue
+        if tgt.op == 'vg':
+            final['vg:' + tgt.a[0]] = (tgt, val)
+            continue
         if tgt.op == 'zg':
             off = 0
             for gi_, n__ in enumerate(spec0.zshape):
@@ -313,6 +327,15 @@ def run(item):
         for k in range(N):
             cmp('U[%d][%d]' % (k, i), tr0.U[k][i], expect(ent[1], tr0.tc[k], k, None) if ent else 0.0)
     for v in spec.vars:
+        entm = final.get('vg:' + v.name)
+        if entm is not None:
+            # matrix-valued variable, guess given as rows x cols (global) or rows x (cols * N) (one block per interval); elements column-major
+            blocks = [tr0.V[v.name]] if v.grid == '' else tr0.Vc[v.name]
+            for k, col in enumerate(blocks):
+                for c_ in range(v.cols):
+                    for r_ in range(v.rows):
+                        cmp('V[%s][%d][%d,%d]' % (v.name, k, r_, c_), col[c_ * v.rows + r_], float(entm[1][r_][k * v.cols + c_]))
+            continue
         ent = final.get(repr(Vg(v.name)))
         if v.grid == '':
             cmp('V[%s]' % v.name, tr0.V[v.name][0], expect(ent[1], None, None, None) if ent and not isinstance(ent[1], E) else (0.0 if not ent else None))
@@ -413,6 +436,8 @@ def run(item):
                         allok = False
                 if allok:
                     matched.add(gi_)
+                    # one evaluation serves every component of a vector-valued symbol that was given this (scalar) expression
+                    matched |= {g2 for g2, (t2, v2) in enumerate(tguess) if repr(v2) == repr(val) and t2.op == tgt.op == 'x'}
                     ch.proved.append('evaluated guess expression of %r == e(node times) for all guessed t0,T (%d points)' % (tgt, n_))
                     ch.nontrivial.add('guess-expr %r n=%d' % (tgt, n_))
             for gi_, (tgt, val) in enumerate(tguess):
